@@ -398,6 +398,11 @@ def pb_ch_post(I, outcome, ctx):
             I.oblige('chunk.consumed_only_when_complete', have >= need)
             I.oblige('chunk.payload_appended_exactly', body_view(I, self) == z3.Concat(body0, z3.SubString(C['after'], 0, size)))
             I.oblige('chunk.stash_is_what_follows', stash(I, self) == z3.SubString(w, need, have - need))
+            # execute() reads a return value of 0 as "the terminating zero-size chunk was parsed: message complete"; a consumed DATA
+            # chunk must therefore never return 0 (whatever happens to be buffered behind it), else an incomplete message is
+            # dispatched as a request when a read boundary falls right behind the chunk's CRLF
+            I.oblige('chunk.data_chunk_never_signals_message_complete', z3.BoolVal(isinstance(v, VInt)) if not isinstance(v, VInt) else v.t > 0,
+                     detail='return value 0 is reserved for the last chunk')
     elif g.get('LAST_CHUNK'):
         cover(I, 'last')
         I.oblige('last_chunk.returns_zero', z3.BoolVal(isinstance(v, VInt)) if not isinstance(v, VInt) else v.t == 0)
